@@ -1,7 +1,62 @@
 import CogentModel.Json
-open CogentModel
+import CogentModel.Model.Splitlines
+import CogentModel.Model.SeqFormats
+open CogentModel CogentModel.Splitlines CogentModel.SeqFormats
 
-def handle (cmd : String) (_j : J) : Except String J :=
-  throw s!"unknown command {cmd}"
+def errStr : Err → String
+  | .recordError => "RecordError"
+  | .valueError => "ValueError"
+  | .attributeError => "AttributeError"
+  | .indexError => "IndexError"
+  | .typeError => "TypeError"
+
+def strJ (s : List Char) : J := J.str (String.ofList s)
+def linesJ (ls : List (List Char)) : J := J.arr (ls.map strJ)
+def recsJ (rs : List Rec) : J := J.arr (rs.map fun r => J.arr [strJ r.1, strJ r.2])
+def exJ {α} (f : α → J) : Except Err α → J
+  | .ok a => f a
+  | .error e => J.obj [("err", J.str (errStr e))]
+
+def getStr (j : J) (k : String) : Except String (List Char) := do return (← (← j.get k).toStr).toList
+def getLines (j : J) (k : String) : Except String (List (List Char)) := do
+  return (← (← j.get k).toListOf J.toStr).map String.toList
+def getRecs (j : J) (k : String) : Except String (List Rec) := do
+  let xs ← (← j.get k).toListOf (J.toPairOf J.toStr J.toStr)
+  return xs.map fun (a, b) => (a.toList, b.toList)
+
+def handle (cmd : String) (j : J) : Except String J :=
+  match cmd with
+  | "splitlines" => do pure (linesJ (pySplitlines (← getStr j "text")))
+  | "iter" => do pure (linesJ (iterSplitlines (← getLines j "chunks")))
+  | "fasta_format" => do
+    -- recs: [[name, [line, ...]], ...] (lines as produced by the external textwrap.wrap)
+    let xs ← (← j.get "recs").toListOf (J.toPairOf J.toStr (J.toListOf J.toStr))
+    pure (strJ (fastaFormat (xs.map fun (n, ls) => (n.toList, ls.map String.toList))))
+  | "fasta_format_chunk" => do
+    pure (strJ (fastaFormatW (chunkWrap (← (← j.get "bs").toNat)) (← getRecs j "recs")))
+  | "chunk_wrap" => do pure (linesJ (chunkWrap (← (← j.get "bs").toNat) (← getStr j "s")))
+  | "gde_format" => do pure (strJ (gdeFormat (← (← j.get "bs").toNat) (← getRecs j "recs")))
+  | "paml_format" => do pure (exJ strJ (pamlFormat (← (← j.get "bs").toNat) (← getRecs j "recs")))
+  | "phylip_format" => do pure (exJ strJ (phylipFormat (← (← j.get "bs").toNat) (← getRecs j "recs")))
+  | "strict" => do
+    let lc ← getStr j "lc"
+    pure (exJ recsJ (strictParser lc (← getLines j "lines")))
+  | "faster" => do
+    let lc ← getStr j "lc"
+    pure (recsJ (fasterParser lc (← getLines j "lines")))
+  | "fasta_bytes" => do pure (recsJ (fastaBytes (← getStr j "text")))
+  | "fasta_text" => do
+    -- all three FASTA parsers on the text of one file
+    let t ← getStr j "text"
+    pure (J.obj [("strict", exJ recsJ (fastaStrict t)), ("faster", recsJ (fastaFaster t)),
+                 ("bytes", recsJ (fastaBytes t))])
+  | "gde_text" => do pure (exJ recsJ (gdeStrict (← getStr j "text")))
+  | "paml" => do pure (exJ recsJ (pamlParser (← getLines j "lines")))
+  | "phylip" => do pure (exJ recsJ (phylipParser (← getLines j "lines")))
+  | "strip" => do pure (J.arr [strJ (strip (← getStr j "s")), strJ (bstrip (← getStr j "s")),
+                                J.arr ((splitWs (← getStr j "s")).map strJ)])
+  | "int" => do pure (exJ J.num (pyInt (← getStr j "s")))
+  | "digits" => do pure (strJ (natDigits (← (← j.get "n").toNat)))
+  | _ => throw s!"unknown command {cmd}"
 
 def main : IO Unit := driverLoop handle
